@@ -126,3 +126,46 @@ Theorem C03_driver_chunking_independent_bom :
   hd SSuspend (snd (drive_flat html_flavour true html_table simd ent c1 sk fuel inj cs2 m [])).
 Proof. exact html_drive_chunking_independent_bom. Qed.
 Print Assumptions C03_driver_chunking_independent_bom.
+
+(* ------------------------------------------------------------------ the tree builder's side (partial) *)
+(* The theorems above say that two chunkings give the same token stream up to the SPLITTING of character tokens.
+   What the tree builder does with a split character token is proved here, over the executable tree-builder model
+   coq/Tree (tied to html5ever event for event by ./check C02), for ONE group of insertion modes; the header of
+   coq/Tree/TreeSplit.v lists what the other groups need and the frame property (the event log is write-only) that
+   the statement for whole token lists needs on top.  _partial: "text" mode only. *)
+From HV Require Tree.TreeTypes Tree.TreeModelHelpers Tree.TreeModelRules Tree.TreeModel Tree.TreeInvDefs Tree.TreeInvRules
+  Tree.TreeContractRun Tree.TreeSplit Base.Utf8.
+
+(* in "text" mode (RCDATA / RAWTEXT / script data / PLAINTEXT) one character token or two: same answers, states that
+   agree on everything but the event log, same abstract DOM *)
+Theorem C03_tree_text_mode_split_partial :
+  forall s line line' a b target,
+    TreeInvDefs.TInv s -> TreeTypes.mode s = TreeTypes.Text -> TreeInvRules.Hshape s ->
+    TreeTypes.foster_parenting s = false ->
+    TreeTypes.vlast (TreeTypes.open_elems s) = Some target ->
+    TreeSplit.is_template_node s target = false ->
+    Utf8.scalars (a ++ b) -> a <> [] ->
+    exists s1 sa s2,
+      TreeModel.process_token (TreeTypes.TChars (a ++ b)) line s = TreeTypes.Ok TreeTypes.SContinue s1 /\
+      TreeModel.process_token (TreeTypes.TChars a) line s = TreeTypes.Ok TreeTypes.SContinue sa /\
+      TreeModel.process_token (TreeTypes.TChars b) line' sa = TreeTypes.Ok TreeTypes.SContinue s2 /\
+      TreeSplit.same_core s1 s2 /\ TreeContractRun.dom_of s1 = TreeContractRun.dom_of s2 /\
+      TreeInvDefs.TInv s1 /\ TreeInvDefs.TInv s2.
+Proof. exact TreeSplit.text_mode_split. Qed.
+Print Assumptions C03_tree_text_mode_split_partial.
+
+(* the abstract DOM merges adjacent text: two appends to the same parent are one append of the concatenation *)
+Theorem C03_tree_append_text_merges :
+  forall d p a b, (forall n, Dom.DomSpec.resolve d p = Some n -> n < Dom.DomSpec.size d) ->
+    Dom.DomSpec.apply (Dom.DomSpec.apply d (Dom.DomSpec.OpAppend p (inr a))) (Dom.DomSpec.OpAppend p (inr b)) =
+    Dom.DomSpec.apply d (Dom.DomSpec.OpAppend p (inr (a ++ b))).
+Proof. exact TreeSplit.apply_append_text_twice. Qed.
+Print Assumptions C03_tree_append_text_merges.
+
+(* pending table text: the all-white-space test over the whole pending text does not depend on how it was cut *)
+Theorem C03_tree_pending_table_text_test :
+  forall p q a b,
+    TreeModelRules.pending_contains_nonspace (p ++ [(TreeTypes.NotSplit, a ++ b)] ++ q) =
+    TreeModelRules.pending_contains_nonspace (p ++ [(TreeTypes.NotSplit, a); (TreeTypes.NotSplit, b)] ++ q).
+Proof. exact TreeSplit.pending_nonspace_split. Qed.
+Print Assumptions C03_tree_pending_table_text_test.
